@@ -16,12 +16,17 @@ let sort_uniq_ints l = Stdlib.List.sort_uniq compare l
 (* same formulas as harness/c17_bulk.c: which attribute slots ask for stack size 0 *)
 let slot_hash seed j = (seed * 7919 + j * 104729 + ((j * j) mod 1009) * 31) mod 1000003
 let slot_stack_zero sk seed j = sk = 2 || (sk = 3 && slot_hash seed j mod 3 = 0)
+(* child_first of attribute slot j; pattern 5 = what myth_thread_attr_init gives = 1 (the check verifies
+   the harness's "info default_child_first=1") *)
+let slot_child_first cf seed j = match cf with
+  | 0 -> 0 | 1 -> 1 | 2 -> j mod 2 | 3 -> (j + 1) mod 2 | 4 -> slot_hash seed (j + 7) mod 2 | _ -> 1
 
 let rec bulk toks =
   match toks with
-  | [_w; _kind; _n; _fs; _as; _rs; _is; _ts; _hr; _hi; _ht] -> bulk (toks @ ["5"; "0"; "0"])
-  | [_w; kind; n; fs; as_; rs; is; ts; hr; hi; ht; _cf; sk; seed] ->
-    let sk = int_of_string sk and seed = int_of_string seed in
+  | [_w; _kind; _n; _fs; _as; _rs; _is; _ts; _hr; _hi; _ht] -> bulk (toks @ ["5"; "0"; "0"; "0"])
+  | [_w; _kind; _n; _fs; _as; _rs; _is; _ts; _hr; _hi; _ht; _cf; _sk; _seed] -> bulk (toks @ ["0"])
+  | [_w; kind; n; fs; as_; rs; is; ts; hr; hi; ht; cf; sk; seed; _wk] ->
+    let sk = int_of_string sk and seed = int_of_string seed and cf = int_of_string cf in
     let n = int_of_string n and fs = int_of_string fs and as_ = int_of_string as_ and rs = int_of_string rs
     and is = int_of_string is and ts = int_of_string ts in
     let many_ = (kind = "many") in
@@ -40,26 +45,60 @@ let rec bulk toks =
          else let off = iz l.l_func - b_funcs in if fs = 0 then 0 else (off / fs) mod nfun in
        let lts = leaf_threads acts in
        let lvs = leaves acts in
-       let inv = Stdlib.List.map2 (fun (l : leaf) (_, t) -> (fid_of l, iz l.l_arg - b_args, (match t with None -> 1 | Some _ -> 0))) lvs lts in
+       let cr = creates acts in
+       (* attribute slot (as the harness reports it) of the creation for [a,c): offset, -2 for a slot
+          asking for stack size 0, -1 without attributes; and its child_first *)
+       let tag_cf at = match at with
+         | Some a -> let off = iz a - b_attrs in
+           let j = if ts = 0 then 0 else off / ts in
+           ((if slot_stack_zero sk seed j then -2 else off), slot_child_first cf seed j)
+         | None -> (-1, 1) in
+       let atag_of t = match t with
+         | None -> -1
+         | Some (a, c) ->
+           (match Stdlib.List.find_opt (fun ((a', c'), _) -> a' = a && c' = c) cr with
+            | Some (_, at) -> fst (tag_cf at) | None -> -99) in
+       let inv = Stdlib.List.map2 (fun (l : leaf) (_, t) -> (fid_of l, iz l.l_arg - b_args, (match t with None -> 1 | Some _ -> 0), atag_of t)) lvs lts in
        let inv = Stdlib.List.sort compare inv in
        let res = Stdlib.List.filter_map (fun (l : leaf) -> match l.l_res with
            | Some r -> Some (iz r - b_res, fid_of l, iz l.l_arg - b_args) | None -> None) lvs in
        let res = Stdlib.List.sort_uniq compare res in
        let idl = sort_uniq_ints (Stdlib.List.filter_map (fun (l : leaf) -> match l.l_id with Some r -> Some (iz r - b_ids) | None -> None) lvs) in
-       let cr = creates acts in
-       let cre = Stdlib.List.sort compare (Stdlib.List.map (fun (_, at) -> match at with
-           | Some a -> let off = iz a - b_attrs in
-             let j = if ts = 0 then 0 else off / ts in
-             if slot_stack_zero sk seed j then -2 else off
-           | None -> -1) cr) in
+       let cre = Stdlib.List.sort compare (Stdlib.List.map (fun (_, at) -> tag_cf at) cr) in
        let njoin = Stdlib.List.length (Stdlib.List.filter (fun a -> match a with AJoin _ -> true | _ -> false) acts) in
        let balanced = (match fj [] acts with Some [] -> true | _ -> false) in
-       Printf.sprintf "ret=0 inv=%s res=%s resstray=0 ids=%s idmis=0 idstray=0 cre=%s created=%d reaped=%d argchg=0 funchg=0 attrchg=0%s"
-         (join "," (Stdlib.List.map (fun (f, o, i) -> Printf.sprintf "%d:%d:%d" f o i) inv))
+       Printf.sprintf "ret=0 inv=%s res=%s resstray=0 ids=%s idmis=0 idstray=0 cre=%s created=%d reaped=%d argchg=0 funchg=0 attrchg=0 stkbad=0%s"
+         (join "," (Stdlib.List.map (fun (f, o, i, t) -> Printf.sprintf "%d:%d:%d:%d" f o i t) inv))
          (join "," (Stdlib.List.map (fun (r, f, o) -> Printf.sprintf "%d:%d:%d" r f o) res))
          (join "," (Stdlib.List.map string_of_int idl))
-         (join "," (Stdlib.List.map string_of_int cre))
+         (join "," (Stdlib.List.map (fun (o, c) -> Printf.sprintf "%d:%d" o c) cre))
          (Stdlib.List.length cr) njoin (if balanced then "" else " UNBALANCED"))
+  | _ -> "badcase"
+
+(* one call over n items, arrays of 8-byte slots: every index once *)
+let bulkbig toks =
+  match toks with
+  | [_w; kind; n; _ny] ->
+    let n = int_of_string n in
+    let out =
+      if kind = "many" then many fuel (zi 0) (zi 0) (zi b_funcs) (zi b_args) (zi b_res) (zi 0) (zi 0) (zi 8) (zi 8) (zi n)
+      else various fuel { ids = zi 0; attrs = zi 0; funcs = zi b_funcs; args = zi b_args; results = zi b_res;
+                          id_stride = zi 0; attr_stride = zi 0; func_stride = zi 0; arg_stride = zi 8;
+                          result_stride = zi 8 } (zi n) in
+    (match out with
+     | OutOfFuel -> "outoffuel"
+     | Done acts ->
+       let cnt = Array.make (n + 1) 0 and resok = ref 0 in
+       Stdlib.List.iter (fun (l : leaf) ->
+           let i = iz l.l_i in
+           if i >= 0 && i < n && iz l.l_arg - b_args = 8 * i then cnt.(i) <- cnt.(i) + 1 else cnt.(n) <- cnt.(n) + 1;
+           (match l.l_res with Some r when iz r - b_res = 8 * i -> incr resok | _ -> ())) (leaves acts);
+       let once = ref 0 and other = ref 0 in
+       for i = 0 to n - 1 do if cnt.(i) = 1 then incr once else incr other done;
+       if cnt.(n) <> 0 then incr other;
+       let ncr = Stdlib.List.length (creates acts) in
+       let njoin = Stdlib.List.length (Stdlib.List.filter (fun a -> match a with AJoin _ -> true | _ -> false) acts) in
+       Printf.sprintf "big ret=0 n=%d once=%d other=%d resok=%d created=%d reaped=%d" n !once !other !resok ncr njoin)
   | _ -> "badcase"
 
 (* ---- task_group ---- *)
@@ -102,8 +141,9 @@ let tg toks =
 
 (* ---- parallel_for ---- *)
 open ParForModel
-let pf toks =
+let rec pf toks =
   match toks with
+  | [w; form; ty; first; last; step; grain; _wk] -> pf [w; form; ty; first; last; step; grain]
   | [_w; form; ty; first; last; step; grain] ->
     let bits = zi (if ty = "i" then 32 else 64) in
     let first = zs first and last = zs last and step = zs step and grain = zs grain in
@@ -130,12 +170,30 @@ let pf toks =
      | _ -> "badcase")
   | _ -> "badcase"
 
+(* parallel_for(0, n, f) over n yielding bodies: every index once *)
+let pfbig toks =
+  match toks with
+  | [_w; n; _ny] ->
+    let n = int_of_string n in
+    (match pf2 fuel (zi 0) (zi n) with
+     | POutOfFuel -> "outoffuel"
+     | PDone l ->
+       let cnt = Array.make (n + 1) 0 in
+       Stdlib.List.iter (fun v -> let i = iz v in if i >= 0 && i < n then cnt.(i) <- cnt.(i) + 1 else cnt.(n) <- cnt.(n) + 1) l;
+       let once = ref 0 and other = ref 0 in
+       for i = 0 to n - 1 do if cnt.(i) = 1 then incr once else incr other done;
+       if cnt.(n) <> 0 then incr other;
+       Printf.sprintf "big n=%d once=%d other=%d" n !once !other)
+  | _ -> "badcase"
+
 let () =
   try while true do
       let l = input_line stdin in
       let toks = Stdlib.List.filter (fun s -> s <> "") (String.split_on_char ' ' (String.trim l)) in
       (match toks with
        | "bulk" :: r -> print_endline (bulk r)
+       | "bulkbig" :: r -> print_endline (bulkbig r)
+       | "pfbig" :: r -> print_endline (pfbig r)
        | "tg" :: r -> print_endline (tg r)
        | "pf" :: r -> print_endline (pf r)
        | [] -> ()
